@@ -53,7 +53,7 @@ func caseGen() *rapid.Generator[Case] {
 	key := rapid.Custom(func(t *rapid.T) gen.Item {
 		return gen.S(gen.StringOf([]string{"k", "h1", "h2", "h3", "name", "x y"}, 1, 2).Draw(t, "key"))
 	})
-	sg := gen.ScriptGen(gen.ScriptOpts{Item: itemGen(), HdrItem: key, MinOps: 1, MaxOps: max, MaxCells: 3, HdrCells: [2]int{1, 5}, ForceHdr: true,
+	sg := gen.ScriptGen(gen.ScriptOpts{Item: itemGen(), HdrItem: key, MinOps: 1, MaxOps: max, MaxCells: 3, HdrCells: [2]int{1, 5}, ForceHdr: true, AllowMutate: true, AllowCopy: true,
 		Creators: []string{"core", "core", "csv", "texttable", "markdown", "json", "html"}})
 	return rapid.Custom(func(t *rapid.T) Case {
 		c := Case{Script: sg.Draw(t, "script")}
